@@ -93,6 +93,59 @@ def run(ck, F, E):
                    "the stack is cleared exactly on the breakpoint.is_none() arm",
                    "the GOSUB/function stack is no longer kept exactly while a breakpoint is pending", si.span)
 
+    # ---- (2b) ordering: the immediate-line helper decides the fate of the stack by looking at `breakpoint`, so
+    #      a break must store the breakpoint BEFORE parking, and CONT must park BEFORE clearing it
+    def bp_writes(body):
+        out = []
+        for b, i, pl, rv, sp in body.assigns():
+            fs = [p for p in pl["proj"] if p["k"] == "field"]
+            if fs and fs[-1].get("name") == "breakpoint":
+                out.append(b)
+        for c in body.calls():
+            if not c.is_local and c.args and c.args[0]["k"] in ("copy", "move") and c.args[0]["place"].get("ty", "").startswith("&mut") \
+                    and "breakpoint" in show(body.expr(c.args[0])):
+                out.append(c.bb)
+        return out
+
+    if br is not None:
+        parks = br.calls_to("Program::set_and_goto_immediate_line")
+        ws = bp_writes(br)
+        ok = bool(parks) and bool(ws) and all(not _reaches_avoiding(br, 0, p.bb, set(ws)) for p in parks) and \
+            not any(br.reaches(p.bb, w) for p in parks for w in ws)
+        ck.require(ok, "C07:ORDER:break-stores-before-parking", "capture/restore",
+                   "the breakpoint is stored before set_and_goto_immediate_line runs (so the stack is kept)",
+                   "break_at_current_location parks on the immediate line before the breakpoint is stored: the helper sees no "
+                   "pending breakpoint and clears the GOSUB/function stack", br.span)
+    if co is not None:
+        parks = co.calls_to("Program::set_and_goto_immediate_line")
+        ws = bp_writes(co)
+        ok = bool(parks) and not any(co.reaches(w, p.bb) or w == p.bb and False for w in ws for p in parks) and \
+            not any(co.dominates(w, p.bb) and w != p.bb for w in ws for p in parks)
+        ck.require(ok, "C07:ORDER:cont-parks-before-clearing", "capture/restore",
+                   "CONT calls set_and_goto_immediate_line while the breakpoint is still pending, and clears it afterwards",
+                   "continue_from_breakpoint clears (takes) the breakpoint before set_and_goto_immediate_line runs: the helper then "
+                   "sees no pending breakpoint and clears the GOSUB/function stack -- a break inside a subroutine followed by CONT "
+                   "ends in RETURN WITHOUT GOSUB", co.span)
+        w = {p[0][1] for (k, p) in E.info[co.path].writes if k == 0 and p and p[0][0] == PROGRAM}
+        ck.require(w <= {"breakpoint", "immediate_line", "location", "stack"}, "C07:EFFECT:cont", "capture/restore",
+                   "CONT writes only %s" % sorted(w), "CONT also modifies %s" % sorted(w - {"breakpoint", "immediate_line", "location", "stack"}),
+                   co.span)
+    if ib is not None:
+        tops = set()
+        for (k, p) in E.info[ib.path].writes:
+            if k != 0 or not p:
+                continue
+            if p[0] == (INTERP, "program") and len(p) > 1:
+                tops.add("Program." + p[1][1])
+            else:
+                tops.add("Interpreter." + p[0][1])
+        allowed_b = {"Interpreter.state", "Interpreter.output", "Program.breakpoint", "Program.immediate_line", "Program.location",
+                     "Program.stack"}
+        ck.require(tops <= allowed_b, "C07:EFFECT:break", "capture/restore",
+                   "a break writes only %s" % sorted(tops),
+                   "a break also modifies %s: state the interrupted program relies on (a pending INPUT reply, variables, loops, "
+                   "DATA cursor, ...) does not survive break + CONT" % sorted(tops - allowed_b), ib.span)
+
     # ---- (3) who may drop a breakpoint
     ws = E.writers_of_field("program::Program", "breakpoint")
     names = sorted(n.split("::")[-1] for n in ws)
